@@ -129,6 +129,11 @@ func main() {
 			fmt.Sscan(nx(), &procIdx)
 		case "--focus":
 			focus = nx()
+		case "--corr-only":
+			st := writeCorr(filepath.Dir(args.Out), args.Seed, args.Tier, "")
+			b, _ := json.Marshal(st)
+			fmt.Println(string(b))
+			return
 		}
 	}
 	if child != "" {
@@ -181,6 +186,19 @@ func driver(args lib.Args, focus string) {
 		}
 		var d Diff
 		json.Unmarshal(b, &d)
+		var cr struct {
+			CorrInput string `json:"corr_input"`
+		}
+		json.Unmarshal(b, &cr)
+		if cr.CorrInput != "" {
+			// replay of a correspondence case: only that case, no repeated-run search
+			st := writeCorr(filepath.Dir(args.Out), args.Seed, args.Tier, cr.CorrInput)
+			out := lib.NewOut(args.Out)
+			out.Extra["corr"] = st
+			os.WriteFile(filepath.Join(filepath.Dir(args.Out), "C20.diffs.json"), []byte("[]"), 0644)
+			out.Close(args.Stats)
+			return
+		}
 		if d.Program == "" {
 			fmt.Println("replay file has no program")
 			os.Exit(2)
@@ -231,6 +249,10 @@ func driver(args lib.Args, focus string) {
 		}
 	}
 	dir := filepath.Dir(args.Out)
+	var corrStats map[string]interface{}
+	if focus == "" && args.Replay == "" {
+		corrStats = writeCorr(dir, args.Seed, args.Tier, "")
+	}
 	progsPath := filepath.Join(dir, "C20.progs.json")
 	pb, _ := json.Marshal(progs)
 	os.WriteFile(progsPath, pb, 0644)
@@ -440,6 +462,9 @@ func driver(args lib.Args, focus string) {
 				failList = append(failList, fmt.Sprintf("%s sel=%d proc=%d: %s", jobs[ji].mode, jobs[ji].sel, jobs[ji].proc, f))
 			}
 		}
+	}
+	if corrStats != nil {
+		out.Extra["corr"] = corrStats
 	}
 	out.Extra["alias_groups"] = aliasGroups()
 	out.Extra["registry_names"] = registryNames
